@@ -460,10 +460,23 @@ def r07_4(ctx: Ctx, rep: Report) -> None:
     rep.instance()
     join = any(isinstance(n, ast.Compare) and isinstance(n.ops[0], ast.Eq) and "['name']" in src(n.left) and "['name']" in src(n.comparators[0]) for n in own_nodes(g.node))
     app = {}
+    # `if name := intf_acl["input"]: acl_d["input"].append(name)`: the appended name stands for the tested lookup
+    walrus_of: Dict[int, ast.AST] = {}
+    for i_ in own_nodes(g.node):
+        if isinstance(i_, ast.If):
+            ws = {w.target.id: w.value for w in ast.walk(i_.test) if isinstance(w, ast.NamedExpr) and isinstance(w.target, ast.Name)}
+            if ws:
+                for b_ in i_.body:
+                    for y_ in ast.walk(b_):
+                        if isinstance(y_, ast.Call) and isinstance(y_.func, ast.Attribute) and y_.func.attr == "append" and y_.args and isinstance(y_.args[0], ast.Name) and y_.args[0].id in ws:
+                            walrus_of.setdefault(id(y_), ws[y_.args[0].id])
     for n in own_nodes(g.node):
-        if isinstance(n, ast.Call) and isinstance(n.func, ast.Attribute) and n.func.attr == "append" and isinstance(n.func.value, ast.Subscript) and n.args and isinstance(n.args[0], ast.Subscript):
+        if isinstance(n, ast.Call) and isinstance(n.func, ast.Attribute) and n.func.attr == "append" and isinstance(n.func.value, ast.Subscript) and n.args:
+            a0 = walrus_of.get(id(n), n.args[0])
+            if not isinstance(a0, ast.Subscript):
+                continue
             k1 = n.func.value.slice.value if isinstance(n.func.value.slice, ast.Constant) else None
-            k2 = n.args[0].slice.value if isinstance(n.args[0].slice, ast.Constant) else None
+            k2 = a0.slice.value if isinstance(a0.slice, ast.Constant) else None
             app[k1] = k2
     if join and app == {"input": "input", "output": "output"}:
         rep.ok("ConfigParser._add_acl_interfaces", "bindings are joined by ACL name; input -> input, output -> output", where=where(g))
